@@ -9,7 +9,7 @@ fn judge(scn: &Scenario, _p: &Plan, l: &RunLog) -> Vec<oracles::Finding> {
 
 pub fn run(ctx: &Ctx) -> Outcome {
     let mut out = Outcome::default();
-    let d = ctx.tier.pick(5, 7);
+    let d = ctx.tier.pick(6, 7);
     for drv in fsm_all(ctx.tier, d) {
         run_and_report(ctx, &drv, &mut out);
     }
